@@ -57,7 +57,7 @@ from vlib.progenum import Atom
 ID = "C06"
 LEVEL = "model_checking"
 
-PLACES = ("q", "r", "o", "p", "t0", "t1", "sf", "uf", "ug")
+PLACES = ("q", "r", "o", "p", "t0", "t1", "sf", "uf", "ug", "a0", "a1")
 IDX = {v: i for i, v in enumerate(PLACES)}
 LINEAR_TITLES = {"Copy violation", "Drop violation", "Not owned", "Borrow shadowed"}
 
@@ -131,6 +131,32 @@ A = {a.name: a for a in [
     _a("q-via-r", "r = q\nq = r", T("q", "move"), P("r"), T("r", "move"), P("q")),
     _a("h(q);h(q)", "h(q)\nh(q)", B("q"), B("q")),
     _a("consume(q);return", "consume(q)\nreturn", T("q"), kind="return"),
+    # ---- the same borrow / take operations through every other CALL MECHANISM and syntactic form
+    _a("barrier(q)", "barrier(q)", B("q")),
+    _a("barrier(q,r)", "barrier(q, r)", B("q"), B("r")),
+    _a("state_result(q)", 'state_result("t", q)', B("q")),
+    _a("fv-borrow(q)", "fb = h\nfb(q)", B("q")),
+    _a("app-borrow(q)", "app(h, q)", B("q")),
+    _a("fv-consume(q)", "fc = consume\nfc(q)", T("q")),
+    _a("app-consume(q)", "appo(consume, q)", T("q")),
+    _a("consume(ident(q))", "consume(ident(q))", T("q")),
+    _a("q=ident(q)", "q = ident(q)", T("q"), P("q")),
+    _a("tensor-borrow(q,r)", "(h, h)(q, r)", B("q"), B("r")),
+    _a("tensor-consume(q,r)", "(consume, consume)(q, r)", T("q"), T("r")),
+    _a("tensor-mixed(q,r)", "(h, consume)(q, r)", B("q"), T("r")),
+    _a("capture(q)", "def k() -> None:\n    h(q)", ("XC", "q")),
+    # arrays of qubits: elements can be lent but not moved out
+    _a("qs=array(new,new)", "qs = array(qubit(), qubit())", P("a0"), P("a1")),
+    _a("qs=array(q,r)", "qs = array(q, r)", T("q", "move"), T("r", "move"), P("a0"), P("a1")),
+    _a("h(qs[0])", "h(qs[0])", B("a0")),
+    _a("h(qs[1])", "h(qs[1])", B("a1")),
+    _a("cx(qs[0],qs[1])", "cx(qs[0], qs[1])", B("a0"), B("a1")),
+    _a("consume(qs[0])", "consume(qs[0])", ("XC", "a0")),
+    _a("q=qs[1]", "q = qs[1]", ("XC", "a1")),
+    _a("discard_array(qs)", "discard_array(qs)", T("a0"), T("a1")),
+    _a("q,r=qs", "q, r = qs", T("a0", "move"), T("a1", "move"), P("q"), P("r")),
+    _a("comp-measure(qs)", "bs = array(measure(x) for x in qs)", T("a0"), T("a1")),
+    _a("for-consume(qs)", "for x in qs:\n    consume(x)", T("a0"), T("a1")),
     # returns
     _a("return", "return", kind="return"),
     _a("return q", "return q", T("q", "return"), kind="return"),
@@ -171,6 +197,19 @@ FAMILIES = {
     "balanced": (_pick("q=new"),
                  _pick("h(q);h(q)", "reset(q)", "q-via-r", "consume(q)", "q=new",
                        "consume(q);return", "return"), "None"),
+    # the same life-cycle through other call mechanisms (function values, functions passed on, identity
+    # through a call, barrier / state_result, closures) ...
+    "forms": (_pick("q=new"),
+              _pick("barrier(q)", "state_result(q)", "fv-borrow(q)", "app-borrow(q)", "fv-consume(q)", "app-consume(q)",
+                    "consume(ident(q))", "q=ident(q)", "capture(q)", "consume(q)", "q=new", "return"), "None"),
+    # ... function tensors over two qubits ...
+    "tensor": (_pick("q=new", "r=new"),
+               _pick("tensor-borrow(q,r)", "tensor-consume(q,r)", "tensor-mixed(q,r)", "barrier(q,r)", "consume(q)",
+                     "consume(r)", "r=new", "return"), "None"),
+    # ... and arrays of qubits
+    "arrays": (_pick("qs=array(new,new)"),
+               _pick("h(qs[0])", "cx(qs[0],qs[1])", "consume(qs[0])", "q=qs[1]", "discard_array(qs)", "q,r=qs",
+                     "comp-measure(qs)", "for-consume(qs)", "qs=array(q,r)", "consume(q)", "consume(r)", "return"), "None"),
     # thorough only
     "core+": (_pick("q=new"),
               _pick("q=new", "r=new", "h(q)", "h(r)", "consume(q)", "consume(r)", "r=q", "q=r",
@@ -185,9 +224,11 @@ FAMILIES = {
 def bounds(tier: str):
     if tier == "quick":
         return [("core", 4, 2), ("live", 4, 2), ("params", 3, 2), ("tuple", 3, 2),
-                ("struct", 3, 2), ("struct2", 3, 2), ("retq", 3, 2), ("balanced", 3, 2), ("exotic", 2, 1)]
+                ("struct", 3, 2), ("struct2", 3, 2), ("retq", 3, 2), ("balanced", 3, 2), ("exotic", 2, 1),
+                ("forms", 3, 2), ("tensor", 3, 2), ("arrays", 3, 2)]
     return [("core", 5, 3), ("live", 5, 3), ("params", 4, 3), ("tuple", 4, 2), ("struct", 4, 2),
-            ("struct2", 4, 2), ("retq", 4, 3), ("balanced", 4, 3), ("core+", 4, 2), ("exotic", 3, 2)]
+            ("struct2", 4, 2), ("retq", 4, 3), ("balanced", 4, 3), ("core+", 4, 2), ("exotic", 3, 2),
+            ("forms", 4, 2), ("tensor", 4, 2), ("arrays", 4, 2)]
 
 
 def programs(tier: str):
@@ -245,6 +286,14 @@ def _step_factory(events: set):
                     events.add("viol:overwrite-leak")
                     return ()
                 st[i] = "O"
+            elif op[0] == "XC":
+                # a use that is illegal whatever the state: moving an element out of an array by subscript,
+                # capturing a non-copyable variable in a closure
+                if cur == "U":
+                    events.add("undef")
+                    return ()
+                events.add("viol:illegal-move-or-capture")
+                return ()
             else:  # PF: assignment to a field of a struct variable that must exist
                 if cur == "U":
                     events.add("undef")
@@ -299,8 +348,10 @@ def model(body, ret_ty: str) -> dict:
 # --------------------------------------------------------------------- implementation
 PRELUDE_MOD = "vc06_prelude"
 PRELUDE_SRC = '''from guppylang import guppy, qubit
-from guppylang.std.builtins import owned
-from guppylang.std.quantum import h
+from guppylang.std.builtins import owned, array, barrier
+from guppylang.std.quantum import h, cx, measure, discard_array
+from guppylang.std.debug import state_result
+from collections.abc import Callable
 @guppy.struct
 class S:
     f: qubit
@@ -318,13 +369,21 @@ def consume_s(s: S @owned) -> None: ...
 def borrow_s(s: S) -> None: ...
 @guppy.declare
 def consume_t(t: tuple[qubit, qubit] @owned) -> None: ...
+@guppy.declare
+def ident(q: qubit @owned) -> qubit: ...
+@guppy.declare
+def app(f: Callable[[qubit], None], q: qubit) -> None: ...
+@guppy.declare
+def appo(f: Callable[[qubit @owned], None], q: qubit @owned) -> None: ...
 '''
 HEADER = (f"from {PRELUDE_MOD} import guppy, qubit, owned, h, S, S2, consume, consume_s, "
-          f"consume_u, borrow_s, consume_t\n")
+          f"consume_u, borrow_s, consume_t, ident, app, appo, array, barrier, cx, measure, discard_array, state_result\n")
 
 
 def _ensure_prelude() -> None:
     import sys
+    import warnings
+    warnings.simplefilter("ignore", SyntaxWarning)      # `(f, g)(a, b)` is a function tensor in Guppy
     if PRELUDE_MOD not in sys.modules:
         from vlib import gload
         gload.load(PRELUDE_SRC, name=PRELUDE_MOD)
@@ -443,6 +502,8 @@ def _item_json(item) -> dict:
 
 def run(ctx) -> dict:
     from collections import Counter
+    import guppylang_internals.experimental as ex
+    ex.enable_experimental_features()      # function tensors, closures
     items = list(programs(ctx.tier))
     results = ctx.pmap(_safe_check, items, chunk=64)
     buckets: Counter = Counter()
@@ -510,6 +571,8 @@ def run(ctx) -> dict:
 
 
 def replay(ctx, item) -> dict:
+    import guppylang_internals.experimental as ex
+    ex.enable_experimental_features()
     fam = item["family"]
     body = pg.from_json(item["body"], ALL_ATOMS)
     r = check_one((fam, body))
